@@ -16,7 +16,7 @@ TEXT = {
  "C16": "Symbolic execution at the real constants for boundary key/value lengths (contents partly symbolic): byte-exact round trips through Put/Get/Has/Items, clean restart and crash recovery; rejection of over-long keys/values without side effects; over-long lookups never match a stored key with the same low 16 length bits.",
  "C05": "Bounded symbolic model checking with threads: Compact runs as one engine thread, a writer as another; the scheduler's choice at every lock acquisition is explored exhaustively within the bound (writer before/between/after any two records compaction processes, between pick and seal), contents and hashes symbolic; afterwards full comparison with the reference, directory check, and process death + real recovery (thorough: crash at any FS call inside the concurrent run).",
  "C07": "Bounded symbolic model checking with threads: all schedules (context switch at every lock acquisition) of 2-3 threads with symbolic operation kinds/keys/values; linearizability is one disjunctive SMT obligation over the real-time-respecting permutations. Rests on C10's lockset monitor for the soundness of switching only at lock acquisitions.",
- "C10": "Decided part: no panic (every implicit runtime check on every path is an obligation), no deadlock (engine-level detection on all schedules), lock discipline (Eraser-style lockset monitor over symbolic paths, per heap cell owned by pogreb), Close racing with every other method, every method on a closed DB. Not decided: the runtime race detector's verdict, memory faults on unmapped memory, goroutine leak / background worker.",
+ "C10": "Decided part: no panic (every implicit runtime check on every path is an obligation), no deadlock (engine-level detection on all schedules), lock discipline (Eraser-style lockset monitor over symbolic paths, per heap cell owned by pogreb), Close racing with every other method, every method on a closed DB. The background worker runs as an engine thread over a model of context/ticker/select (bounded number of ticks); after Close no thread started by the DB may be alive. Not decided: the runtime race detector's verdict, real memory faults.",
  "C12": "Bounded symbolic model checking with threads: Backup as one thread, a writer as another, schedule symbolic at lock acquisitions and at Backup's lock-free points; the copy is opened by the real recovery and compared (one disjunctive obligation over admissible prefixes); the source must be unaffected.",
  "C13": "Lock acquisition/release of fs.OS executed symbolically over a kernel model (stat/open/flock/unlink/close), every interleaving of the system calls of one releasing owner and 2-3 openers explored (scheduling points between the calls): at most one holder at any instant; counterexamples replayed on the real kernel. DB level: session sequences with clean/unclean/failed-recovery ends on fs.Mem: recovery iff unclean, contents preserved, competing Open rejected without touching the directory.",
  "C17": "Differential symbolic execution: one symbolic program is run on fs.Mem (from its source), fs.OS and fs.OSMMap (over a kernel model with mmap views) inside the same path; every API result and the segment-file bytes must agree (SMT obligations over shared symbolic contents), no access to unmapped memory.",
